@@ -94,7 +94,7 @@ Proof.
       * change (lookup (SRange s i j)) with (env_idx (lookup s) i j) in Hdx. rewrite Hdx. simpl. rewrite Hdy. reflexivity.
       * unfold flatten_list in *. rewrite flat_map_app, map_app. apply Forall2_app; auto.
   - (* mapping *)
-    simpl in *. destruct (IHp Hok (SMapped s pm) (cm_compose cm chm) gt cs Ht Hg Hcp) as (pcs & Hd & HF).
+    simpl in *. destruct (IHp Hok (SMapped s pm (map_ids pm p)) (cm_compose cm chm) gt cs Ht Hg Hcp) as (pcs & Hd & HF).
     exists pcs. split; auto.
   - (* time reversal *)
     simpl in *. destruct (cp p s cm gt) as [cs'|e] eqn:E; simpl in Hcp; [|discriminate].
